@@ -296,6 +296,35 @@ def process_level(ctx, mod, demod, only=None):
             ctx.sample({"pipeline": res["cmd"], "lsf_line": want.decode(), "stdout_bytes": res["out_len"], "frames_sent": frames, "wall_s": round(res["wall"], 2)})
     ctx.coverage["pipeline_runs_ok"] = ndecoded
     ctx.coverage["pipeline_runs"] = len(cfgs)
+    # one transmission longer than 2^15 frames (21 min 52 s of audio): the frame number wraps inside it.  Thorough tier, or when a
+    # translator could not read the source / a proof broke (search harder).
+    if only is None and (thorough or ctx.degraded or ctx.broken):
+        cfg = ("AB1CD", None, 3, False, False, "tone", 1312, r.next())
+        _, res = run_pipeline(ctx, mod, demod, cfg, len(allcfgs))
+        ctx.case(("pipeline-long", cfg[0], cfg[2]), nontrivial=res.get("out_len", 0) > 0)
+        ctx.count("pipeline:tone:frame-number-wrap")
+        err = res.get("stderr", b"").replace(b"\r", b"\n")
+        replay = {"command": res.get("cmd"), "src": cfg[0], "dst": None, "can": cfg[2], "invert": False, "leading_noise": False, "audio": "tone",
+                  "seconds": 1312, "audio_seed": cfg[7], "mod_exit": res.get("mod_rc"), "demod_exit": res.get("demod_rc"),
+                  "stdout_bytes": res.get("out_len"), "demod_stderr": err.decode(errors="replace")[-600:]}
+        frames = (res.get("nsamples", 0) + 319) // 320
+        want = spec_lines(ctx, [(cfg[0], None, cfg[2], bytes(14))])[0][1].strip(b"\n")
+        src_lines = [l for l in err.split(b"\n") if l.startswith(b"SRC: ")]
+        if res.get("timeout"):
+            ctx.violation("pipeline-hangs", "the 32800-frame pipeline did not finish within 600 s", replay)
+        elif res["mod_rc"] != "0" or res["demod_rc"] != "0":
+            ctx.violation("pipeline-exit-status", "m17-mod / m17-demod did not both exit with status 0 (32800-frame transmission)", replay)
+        elif not src_lines or any(l != want for l in src_lines):
+            ctx.violation("pipeline-lsf-report", "32800-frame transmission: m17-demod -l does not report the link information given to m17-mod", replay)
+        elif err.count(b"\nEOS\n") != 1:
+            replay["eos_lines"] = err.count(b"\nEOS\n")
+            ctx.violation("pipeline-eos-count", "32800-frame transmission (the frame number wraps at 0x8000): m17-demod -l does not flag the end of "
+                          "the stream exactly once", replay)
+        elif res["out_len"] % 640 != 0 or res["out_len"] < 640 * (frames - 400):
+            replay["frames_sent"] = frames
+            ctx.violation("pipeline-audio-length", "32800-frame transmission: stdout is not a whole number of 640-byte frames covering all but at "
+                          "most the first 400 frames", replay)
+        ctx.coverage["pipeline_long_run_frames"] = frames
 
 
 def eof_probe(ctx):
